@@ -268,6 +268,7 @@ def force_oracle(case, steps):
                         del forced[(g, r)]
                     else:
                         forced[(g, r)] = 'unknown'
+    failing_now = set()
     for k, s in enumerate(steps):
         op = s['op']
         kind = op['op']
@@ -336,6 +337,8 @@ def force_oracle(case, steps):
             else:
                 pending |= all_ids
             continue
+        if kind == 'fail':
+            failing_now = set(op['slugs'])
         if kind == 'fail' or 'chain' not in op:
             continue
         ch = chains[op['chain']] if op['chain'] < len(chains) else None
@@ -408,7 +411,10 @@ def force_oracle(case, steps):
                     return (f'step {k}: the request for {op["name"]} ran {r}, which is not marked as forced and whose result was '
                             f'stored ({path}); marked: {sorted(i[1] for i in forced if i[0] == ch["group"])}')
             consume({ch['group']}, ran, s['out'] != 'error')
-            if me in pending:
+            # a forced task whose request fails before its own run starts - an input named in the signature of its run is
+            # made to fail - has not run and stays forced (C07_forced_runs_again: "... unless one of those fails")
+            input_failed = s['out'] == 'error' and ran.count(me[1]) == 0 and any(r.split('#')[0] in failing_now for r in ran)
+            if me in pending and not input_failed:
                 if ran.count(me[1]) != 1:
                     return f'step {k}: forced task {op["name"]} ran {ran.count(me[1])} times on its next request (runs: {ran})'
             if s['out'] != 'error':
